@@ -39,6 +39,12 @@ def pcCmd (st : State) (toks : List String) : State × String :=
   | ["send", fin, ntf] =>
     let (st', r) := send st (fin = "1") (ntf = "1")
     (st', match r with | some s => s!"serial={s}" | none => "no-pending")
+  | ["failsend"] =>
+    let (st', r) := sendFail st
+    (st', match r with | some s => s!"failed serial={s}" | none => "no-pending")
+  | ["retry", fin, ntf] =>
+    let (st', r) := retry st (fin = "1") (ntf = "1")
+    (st', match r with | some s => s!"serial={s}" | none => "bad-op")
   | ["sendser", ser, fin, ntf] =>
     match ser.toNat? with
     | some sr =>
